@@ -267,10 +267,11 @@ impl JobServer {
         crate::verif::point(
             "js.setup",
             &format!(
-                "{} {} {}",
+                "{} {} {} {}",
                 max_jobs,
                 if token_fds.is_some() { "inherited" } else { "own" },
-                nix::unistd::getppid()
+                nix::unistd::getppid(),
+                owns_cheat_pipe as i32
             ),
         );
         match token_fds {
